@@ -64,9 +64,9 @@ def make_candles(kind, n, seed, scale=100.0, t0=T0):
     if kind == 'gappy':
         # opens away from the previous close (weekend / illiquid gaps): the previous close lies outside many candles' ranges
         gap = np.where(rng.random(n) < 0.3, rng.normal(0, 0.02, n), 0.0)
-        open_ = open_ * (1 + gap)
-        high = np.maximum(high, np.maximum(open_, close))
-        low = np.maximum(np.minimum(low, np.minimum(open_, close)), scale * 1e-6)
+        gap[0] = 0.0
+        level = np.cumprod(1 + gap)  # the whole candle (and everything after it) moves; the previous close stays where it was
+        open_, close, high, low = open_ * level, close * level, high * level, low * level
     if kind == 'lattice':
         # prices on a coarse grid: ties between highs/lows, symmetric outside bars, equal extremes are frequent
         g = scale * 0.0025
